@@ -1,7 +1,7 @@
 (* Glue between interchange values and the model: one named entry per operation.  Kept in Coq so that
    the OCaml driver stays a dumb parser/printer. *)
 From Coq Require Import NArith List Bool String.
-From DBG Require Import Interop.Val Spec.Dna Packed.KmerModel Algo.KmerHist Interop.DispatchExts.
+From DBG Require Import Interop.Val Spec.Dna Packed.KmerModel Algo.KmerHist Interop.DispatchExts Interop.DispatchSeq.
 Import ListNotations.
 Open Scope N_scope.
 
@@ -94,6 +94,8 @@ Definition spec_kmer_ops (K : nat) : list (string * handler) :=
         | Some d, Some e => Some (VL [ofbool (dna_eqb d e); VN (cmp_code (dna_compare d e)); ofbool (dna_eqb d e)]) | _, _ => None end | _ => None end);
     ("s.k.sort_dedup"%string, fun a => match a with [VL ls] => match omap vNs ls with
         | Some ds => Some (VL (map ofNs (dedup_by dna_eqb (sort_by dna_leb ds)))) | None => None end | _ => None end);
+    ("s.k.sort"%string, fun a => match a with [VN canonical; VL ls] => match omap vNs ls with
+        | Some ds => Some (VL (map ofNs (sort_by dna_leb (if canonical =? 0 then ds else map canon ds)))) | None => None end | _ => None end);
     ("s.k.member"%string, fun a => match a with [VL ls; VL x] => match omap vNs ls, vlistN x with
         | Some ds, Some d => Some (ofbool (existsb (dna_eqb d) ds)) | _, _ => None end | _ => None end);
     ("s.k.is_palindrome"%string, fun a => match a with [VL l] => match vlistN l with Some d => Some (ofbool (is_palindrome d)) | None => None end | _ => None end)
@@ -119,4 +121,4 @@ Definition dispatch (op : string) (v : val) : option val :=
   if String.eqb (prefix2 op) "k." then d_kmer op v
   else if String.eqb (substring 0 4 op) "s.k." then d_spec_kmer op v
   else if String.eqb (prefix2 op) "e." || String.eqb (substring 0 4 op) "s.e." then d_exts op v
-  else match run_table generic_spec_ops op v with Some r => Some r | None => None end.
+  else match run_table generic_spec_ops op v with Some r => Some r | None => d_seq op v end.
